@@ -685,7 +685,7 @@ pub fn run_c07(ctx: &Ctx) -> Outcome {
         "Cases x execution contexts. (a) every generated GenCase (all configurations, both entropy modes) is run on two fresh instances in \
          one thread and on a third, brand-new thread (fresh HashMap hash keys, different addresses); (b) a fixed list of cases is run \
          concurrently by 16 threads at once, every case on every thread; (c) the same list is run by three freshly spawned processes (new \
-         ASLR layout and hash seeds); (d) CLI batch directories for RAYON_NUM_THREADS in {1,2,5,16}. Oracle: all outputs / digests for a case \
+         ASLR layout and hash seeds; different working directories - the harness's, the checkout root, / - and environments); (d) CLI batch directories for RAYON_NUM_THREADS in {1,2,5,16}. Oracle: all outputs / digests for a case \
          are equal (and equal to the library's for batch files). Non-trivial = output with >= 2 memo keys and >= 1 GET (where hash-map order \
          could leak), or an active mutator.",
     );
@@ -770,7 +770,34 @@ pub fn run_c07(ctx: &Ctx) -> Outcome {
         return out;
     }
     let exe = util::self_exe();
-    let children: Vec<_> = (0..3).map(|_| Command::new(&exe).args(["digest-cases", &path]).stdout(Stdio::piped()).stderr(Stdio::null()).spawn()).collect();
+    // the three processes also differ in everything else a process inherits: the working directory (this
+    // one's, the root of the checkout, "/") and the environment (inherited, inherited, a cleared one with
+    // unusual locale / time zone / home settings)
+    let children: Vec<_> = (0..3)
+        .map(|k| {
+            let mut cmd = Command::new(&exe);
+            cmd.args(["digest-cases", &path]).stdout(Stdio::piped()).stderr(Stdio::null());
+            match k {
+                0 => {}
+                1 => {
+                    cmd.current_dir(&ctx.repo_dir);
+                }
+                _ => {
+                    cmd.current_dir("/").env_clear().envs([
+                        ("HOME", "/nonexistent"),
+                        ("LANG", "tr_TR.UTF-8"),
+                        ("LC_ALL", "tr_TR.UTF-8"),
+                        ("TZ", "Pacific/Kiritimati"),
+                        ("RAYON_NUM_THREADS", "3"),
+                        ("RUST_BACKTRACE", "full"),
+                        ("PYTHONHASHSEED", "12345"),
+                        ("TMPDIR", "/nonexistent"),
+                    ]);
+                }
+            }
+            cmd.spawn()
+        })
+        .collect();
     for (k, ch) in children.into_iter().enumerate() {
         let Ok(ch) = ch else {
             out.inconclusive = Some("cannot spawn digest child".into());
@@ -815,6 +842,17 @@ pub fn run_c07(ctx: &Ctx) -> Outcome {
                 .into_iter()
                 .filter(|c| c.seed.is_some() && matches!(c.mode, frontends::Mode::Batch { fault_at: None, samples } if samples >= 2))
                 .take(n)
+                .enumerate()
+                .map(|(k, mut c)| {
+                    // rayon cuts a batch into pieces whose boundaries depend on the worker count; directories
+                    // of up to ~100 files have pieces of more than one file for the smaller counts
+                    if let frontends::Mode::Batch { samples, .. } = &mut c.mode {
+                        if k % 2 == 1 {
+                            *samples = 13 + (*samples * 17 + k * 7) % 90;
+                        }
+                    }
+                    c
+                })
                 .collect();
             let items: Vec<(usize, frontends::CliCase)> = base.into_iter().enumerate().collect();
             let (st, found) = run_enum(items, |(i, c), st| check_batch_workers(ctx, &cli, *i, c, st));
